@@ -183,6 +183,7 @@ func main() {
 		log.SetOutput(io.Discard) // the code under test logs freely
 	}
 	go memWatch()
+	cleanStoreDirs()
 	if len(os.Args) < 3 {
 		fmt.Fprintln(os.Stderr, "usage: siot-diff gen|replay <prop> [-seed N] [-n K] [-tier quick|thorough]")
 		os.Exit(2)
@@ -213,6 +214,7 @@ func main() {
 	}
 	w := bufio.NewWriterSize(os.Stdout, 1<<20)
 	defer w.Flush()
+	defer os.RemoveAll(storeDir()) // runs after Done: the directory of this process goes with it
 	if p.Init != nil {
 		p.Init()
 	}
